@@ -16,7 +16,7 @@ type ClientServerStream struct {
 	ctx context.Context
 
 	header  metadata.MD
-	headerM sync.Mutex    // guards closing of headerC
+	headerM sync.Mutex    // guards closing of headerC, and trailer
 	headerC chan struct{} // closed once calls to clientStream.Header should return
 
 	serverSend chan any
@@ -96,6 +96,9 @@ func (c *clientStream) Header() (metadata.MD, error) {
 }
 
 func (c *clientStream) Trailer() metadata.MD {
+	// the handler may still be running (and setting trailers) when the caller gave up on the call
+	c.headerM.Lock()
+	defer c.headerM.Unlock()
 	return c.trailer
 }
 
@@ -163,6 +166,8 @@ func (s *serverStream) SendHeader(md metadata.MD) error {
 }
 
 func (s *serverStream) SetTrailer(md metadata.MD) {
+	s.headerM.Lock()
+	defer s.headerM.Unlock()
 	s.trailer = metadata.Join(s.trailer, md)
 }
 
